@@ -445,6 +445,11 @@ class Tr:
                 if ta == Z and tb == Z:
                     return "(pyceil_div %s %s)" % (a, b), Z
             raise Untranslatable("ceil of something other than int / int")
+        if fname == "slice" and len(args) == 3:
+            parts = [self.expr(a, env) for a in args]
+            if all(t == Z for _, t in parts):
+                return "(" + ", ".join(e for e, _ in parts) + ")", (Z, Z, Z)
+            raise Untranslatable("slice() of non-integers")
         if fname == "bool" and len(args) == 1:
             a, ta = self.expr(args[0], env)
             return self.truth(a, ta), B
@@ -643,7 +648,8 @@ class Tr:
             if target in self.assigned([s]) and target not in self.assigned(rest):
                 env2 = dict(env)
                 for n in self.assigned(s.body):
-                    env2[n] = Poison("loop-carried variable")
+                    # a loop-carried variable is unknown, unless the kernel table declares it as an input (then the theorem quantifies over its value)
+                    env2[n] = self.spec.get("carried", {}).get(n) or Poison("loop-carried variable")
                 lv = self.spec.get("loop_vars", {})
                 if isinstance(s.target, ast.Name) and s.target.id in lv:
                     env2[s.target.id] = lv[s.target.id]
